@@ -38,6 +38,10 @@ type World struct {
 	conc    map[string][]byte // term key -> concrete bytes
 	garb    uint64
 	sigCtr  uint64
+	sigs    []Term // every signature term seen so far (candidates for re-encodings)
+	// Malleable counts, per key type, byte strings that are not a signature the
+	// harness made or saw, yet verify for the key and message of one it did.
+	Malleable map[int]int
 }
 
 type detReader struct{ s uint64 }
@@ -60,6 +64,7 @@ func NewWorld(seed uint64, perType, nmac int) (*World, error) {
 		rev:     map[string]Term{},
 		conc:    map[string][]byte{},
 		garb:    1000,
+		Malleable: map[int]int{},
 	}
 	rd := &detReader{s: seed ^ 0xc19c19}
 	for _, typ := range []int{crypto.Ed25519, crypto.Secp256k1, crypto.ECDSA, crypto.RSA} {
@@ -190,6 +195,9 @@ func (w *World) stateJSON(s OState) ([]byte, error) {
 }
 
 func (w *World) remember(t Term, b []byte) {
+	if t.Tag == TSig {
+		w.sigs = append(w.sigs, t)
+	}
 	k := t.Key()
 	if _, ok := w.conc[k]; !ok {
 		w.conc[k] = b
